@@ -77,110 +77,3 @@ Qed.
 Lemma not_in_core tag : ~ In tag core_tags -> existsb (key_eqb (Some tag)) (map Some core_tags ++ [None]) = false.
 Proof. apply not_in_list. Qed.
 
-(* regenerated facts about the effective tables of the safe / base / full classes, as named boolean predicates *)
-Definition safe_tables_ok (c : cls) : bool :=
-  keys_eqb (keys_of (effective w0 c KCtor)) (map Some core_tags ++ [None]) &&
-  (match effective w0 c KMultiCtor with [] => true | _ => false end &&
-   match lookup None (effective w0 c KCtor) with Some m => String.eqb m UNDEF | None => false end).
-Lemma safe_tables_all_ok : forallb safe_tables_ok safe_loader_classes = true.
-Proof. vm_compute. reflexivity. Qed.
-Lemma safe_tables_spec c : safe_tables_ok c = true ->
-  keys_eqb (keys_of (effective w0 c KCtor)) (map Some core_tags ++ [None]) = true /\
-  effective w0 c KMultiCtor = [] /\ lookup None (effective w0 c KCtor) = Some UNDEF.
-Proof.
-  unfold safe_tables_ok. intros H. apply andb_prop in H as [H1 H]. apply andb_prop in H as [H2 H3].
-  split; [exact H1|]. split.
-  - destruct (effective w0 c KMultiCtor); [reflexivity|discriminate].
-  - destruct (lookup None (effective w0 c KCtor)) as [m|]; [|discriminate]. apply String.eqb_eq in H3. subst. reflexivity.
-Qed.
-
-Lemma l_safe_dispatch_closed : forall c tag kd, In c safe_loader_classes -> ~ In tag core_tags -> dispatch_of w0 c tag kd = UNDEF.
-Proof.
-  intros c tag kd Hc Ht.
-  pose proof (proj1 (forallb_forall safe_tables_ok _) safe_tables_all_ok c Hc) as Hok.
-  destruct (safe_tables_spec c Hok) as (Hk & Hm & Hn).
-  unfold dispatch_of, dispatch. rewrite (lookup_none_keys _ _ _ Hk (not_in_core tag Ht)). rewrite Hm. cbn [multi_scan lookup]. rewrite Hn. reflexivity.
-Qed.
-
-Definition base_tables_ok (c : cls) : bool :=
-  match effective w0 c KCtor with [] => true | _ => false end && match effective w0 c KMultiCtor with [] => true | _ => false end.
-Lemma base_tables_all_ok : forallb base_tables_ok base_loader_classes = true.
-Proof. vm_compute. reflexivity. Qed.
-Lemma base_tables_spec c : base_tables_ok c = true -> effective w0 c KCtor = [] /\ effective w0 c KMultiCtor = [].
-Proof.
-  unfold base_tables_ok. intros H. apply andb_prop in H as [H1 H2]. split.
-  - destruct (effective w0 c KCtor); [reflexivity|discriminate].
-  - destruct (effective w0 c KMultiCtor); [reflexivity|discriminate].
-Qed.
-Lemma l_base_dispatch_default : forall c tag kd, In c base_loader_classes -> dispatch_of w0 c tag kd = kd.
-Proof.
-  intros c tag kd Hc. pose proof (proj1 (forallb_forall base_tables_ok _) base_tables_all_ok c Hc) as Hok.
-  destruct (base_tables_spec c Hok) as [E1 E2]. unfold dispatch_of. rewrite E1, E2. reflexivity.
-Qed.
-
-(* ---------- C04: the full loaders ---------- *)
-Definition full_loader_classes : list cls := ["FullLoader"; "CFullLoader"].
-Definition full_tables_ok (c : cls) : bool :=
-  forallb (fun p => keys_avoid_prefix p (effective w0 c KCtor) && multi_incomparable p (effective w0 c KMultiCtor)) object_prefixes &&
-  (match lookup None (effective w0 c KMultiCtor) with None => true | Some _ => false end &&
-   match lookup None (effective w0 c KCtor) with Some m => String.eqb m UNDEF | None => false end).
-Lemma full_tables_all_ok : forallb full_tables_ok full_loader_classes = true.
-Proof. vm_compute. reflexivity. Qed.
-Lemma full_tables_spec c : full_tables_ok c = true ->
-  (forall p, In p object_prefixes -> keys_avoid_prefix p (effective w0 c KCtor) = true /\ multi_incomparable p (effective w0 c KMultiCtor) = true) /\
-  lookup None (effective w0 c KMultiCtor) = None /\ lookup None (effective w0 c KCtor) = Some UNDEF.
-Proof.
-  unfold full_tables_ok. intros H. apply andb_prop in H as [H1 H]. apply andb_prop in H as [H2 H3]. split; [|split].
-  - intros p Hp. pose proof (proj1 (forallb_forall _ _) H1 p Hp) as Hq. cbv beta in Hq. apply andb_prop in Hq. exact Hq.
-  - destruct (lookup None (effective w0 c KMultiCtor)); [discriminate|reflexivity].
-  - destruct (lookup None (effective w0 c KCtor)) as [m|]; [|discriminate]. apply String.eqb_eq in H3. subst. reflexivity.
-Qed.
-Lemma l_object_tags_rejected : forall c p suffix kd, In c full_loader_classes -> In p object_prefixes ->
-  dispatch_of w0 c (p ++ suffix) kd = UNDEF.
-Proof.
-  intros c p suffix kd Hc Hp.
-  pose proof (proj1 (forallb_forall full_tables_ok _) full_tables_all_ok c Hc) as Hok.
-  destruct (full_tables_spec c Hok) as (H1 & H2 & H3). destruct (H1 p Hp) as [Ha Hb].
-  unfold dispatch_of, dispatch.
-  rewrite (lookup_prefixed_none p suffix _ Ha). rewrite (multi_scan_prefixed_none p suffix _ Hb). rewrite H2, H3. reflexivity.
-Qed.
-
-(* the four instantiating multi-constructors are registered exactly on the unsafe classes *)
-Definition has_instantiating (c : cls) : bool :=
-  existsb (fun m => in_s m instantiating_multi) (List.concat (map snd (effective w0 c KMultiCtor))).
-Definition unsafe_classes : list cls := ["UnsafeConstructor"; "Constructor"; "UnsafeLoader"; "Loader"; "CUnsafeLoader"; "CLoader"].
-Lemma l_unsafe_only_on_unsafe : forallb (fun c => Bool.eqb (has_instantiating c) (in_s c unsafe_classes)) shipped_classes = true.
-Proof. vm_compute. reflexivity. Qed.
-
-(* ---------- call-graph closure ---------- *)
-Definition safe_closure_ok (c : cls) : bool := confined safe_leaf_ok safe_method_ok (reach w0 methods c true).
-Lemma l_safe_closure_confined : forallb safe_closure_ok (safe_loader_classes ++ base_loader_classes) = true.
-Proof. vm_compute. reflexivity. Qed.
-Definition full_closure_ok (c : cls) : bool := confined full_leaf_ok full_method_ok (reach w0 methods c false).
-Lemma l_full_closure_confined : forallb full_closure_ok full_loader_classes = true.
-Proof. vm_compute. reflexivity. Qed.
-(* not idle: the unsafe loader does reach the instantiating code *)
-Lemma l_unsafe_closure_not_confined : confined full_leaf_ok full_method_ok (reach w0 methods "UnsafeLoader" false) = false.
-Proof. vm_compute. reflexivity. Qed.
-
-(* C back-end loaders share the constructor classes of their Python counterparts ("Constructor" is an empty alias subclass of
-   UnsafeConstructor: it defines no method and owns no table) *)
-Definition ctor_part (c : cls) : list cls := filter (fun x => in_s x ["BaseConstructor"; "SafeConstructor"; "FullConstructor"; "UnsafeConstructor"]) (mro_of w0 c).
-Lemma l_c_loaders_share_constructors :
-  ctor_part "CSafeLoader" = ctor_part "SafeLoader" /\ ctor_part "CBaseLoader" = ctor_part "BaseLoader" /\
-  ctor_part "CFullLoader" = ctor_part "FullLoader" /\ ctor_part "CUnsafeLoader" = ctor_part "UnsafeLoader" /\ ctor_part "CLoader" = ctor_part "Loader" /\
-  forallb (fun x => negb (String.eqb (fst (fst x)) "Constructor")) methods = true /\
-  forallb (fun k => match own_of "Constructor" k (own w0) with None => true | Some _ => false end) [KCtor; KMultiCtor] = true.
-Proof. vm_compute. repeat split; reflexivity. Qed.
-
-(* every effective registry table of a C class equals its Python counterpart's (C06) *)
-Fixpoint strs_eqb (a b : list string) : bool := match a, b with [], [] => true | x :: a', y :: b' => String.eqb x y && strs_eqb a' b' | _, _ => false end.
-Fixpoint table_eqb (a b : table) : bool :=
-  match a, b with [], [] => true | (k1, v1) :: a', (k2, v2) :: b' => key_eqb k1 k2 && strs_eqb v1 v2 && table_eqb a' b' | _, _ => false end.
-Definition same_tables (a b : cls) : bool :=
-  forallb (fun k => table_eqb (effective w0 a k) (effective w0 b k)) [KCtor; KMultiCtor; KRepr; KMultiRepr; KImplicit; KPath].
-Definition c_pairs : list (cls * cls) :=
-  [("CBaseLoader", "BaseLoader"); ("CSafeLoader", "SafeLoader"); ("CFullLoader", "FullLoader"); ("CUnsafeLoader", "UnsafeLoader"); ("CLoader", "Loader");
-   ("CBaseDumper", "BaseDumper"); ("CSafeDumper", "SafeDumper"); ("CDumper", "Dumper")].
-Lemma l_c_classes_same_tables : forallb (fun p => same_tables (fst p) (snd p)) c_pairs = true.
-Proof. vm_compute. reflexivity. Qed.
